@@ -302,6 +302,13 @@ func (g *bundleGen) print(s *gScope, depth int) string {
 		if g.r.Intn(4) == 0 {
 			dir += dirs[g.r.Intn(len(dirs))]
 		}
+		// long chains: the parser's directive slice then has spare capacity (len 3 cap 4, len 5-7 cap 8)
+		if g.r.Intn(5) == 0 {
+			for k := 1 + g.r.Intn(6); k > 0; k-- {
+				dir += []string{"|id", "|noAutoescape", "|escapeHtml", "|truncate:40", "|escapeUri"}[g.r.Intn(5)]
+			}
+			g.stat("directive-chain>=3")
+		}
 		g.stat("directive")
 	}
 	switch g.r.Intn(6) {
